@@ -191,6 +191,10 @@ func init() {
 				for _, f := range []string{"packed-self", "packed-x5c", "fido-u2f", "tpm", "android-key", "android-safetynet"} {
 					attestCase(c, "bind.otherKey."+f, f, []string{"sig.otherKey"}, false)
 				}
+				// TPM: extraData is a proper prefix of the right digest (also the empty one): it binds nothing
+				for v := 0; v < 5; v++ {
+					attestCaseVar(c, "bind.otherKey.tpm", "tpm", []string{"tpm.extraDataShort"}, false, v)
+				}
 				// the statement presents x5c[0]; the signature was made by the key of a LATER chain element (honest leaf placed second)
 				for _, f := range []string{"packed-x5c", "tpm", "android-key", "apple"} {
 					attestCase(c, "bind.otherKey."+f, f, []string{"x5c.leafSecond"}, false)
